@@ -1457,3 +1457,26 @@ package gedcom
 //@   assigns H.gedcom.SimpleNode.children, G.gedcom.nodeCache, alloc
 //@ iface Node.Equals(node2)
 //@   assigns nothing
+
+// C08 (provenance): a node that arrives from the left side can only fill the
+// Left slot of an entry, one from the right side only the Right slot, and a
+// slot that is filled is never overwritten. Observed where the children are
+// read (right after the two assignments).
+//@ func NodeDiff.traverse
+//@   props C08
+//@   oncall Node.Nodes check left-side: implies(isLeft, nd.Right == old(nd.Right) && nd.Left == ite(old(nd.Left) == nil, n, old(nd.Left)))
+//@   oncall Node.Nodes check right-side: implies(!isLeft, nd.Left == old(nd.Left) && nd.Right == ite(old(nd.Right) == nil, n, old(nd.Right)))
+//@   oncall NodeDiff.traverse check same-side: arg1 == child && arg2 == isLeft
+
+// C07 (matching step of the order-insensitive comparison): a right-hand slot
+// is taken only by a left node that is deeply equal to it, at most one slot
+// per left node, and a taken slot is never released or taken again.
+//@ func DeepEqualNodes
+//@   props C07
+//@   ghost eq bool = false
+//@   opaque DeepEqual
+//@   oncall DeepEqual check pair: arg0 == leftChild && arg1 == rightChild && !matches[i]
+//@   oncall DeepEqual do eq = result
+//@   loop 2 iter takes-iff-equal: matches[i] == (old(matches[i]) || (eq && !old(matches[i])))
+//@   loop 2 iter others-kept: forall(j, implies(j != i, matches[j] == old(matches[j])))
+//@   ensures lengths: implies(len(left) != len(right), !result)
